@@ -3,6 +3,7 @@ from lib import *
 import copy as _copy
 
 PROP = "C03"
+PAR_OK = True
 LEVEL = "proof"
 RULE = ("histories of 1..12 operations applied in turn to one tree object, drawn from the whole editing alphabet: reroot at "
         "an inner node / any node index / a node of no tree, unroot, reroot on an outgroup (clade, tips, absent names; strict / "
